@@ -1029,7 +1029,21 @@ def replay_artefact(binary, path, workdir):
         return (rc != 0), "program exited %d (0 expected)\n%s" % (rc, err[-600:])
     if rc != 0:
         return None, "program exited %d: %s" % (rc, err[-400:])
-    real = {k: (parse_out(out, k[:-4], raw=True) if k.endswith("!raw") else {t for t in parse_out(out, k) if all_small(t)}) for k in exp}
+    out4 = None
+    if any(k.endswith(" with -j 4") for k in exp):
+        rc4, out4, err4, _ = run_program(binary, m.group(1), workdir, "replay_j4", extra_args=("-j", "4"), extra_env=PAR_ENV)
+        if rc4 != 0:
+            out4 = ""
+
+    def got(k):
+        if k == "exit status with -j 4":
+            return {(0,)} if out4 else {(1,)}
+        if k.endswith(" with -j 4"):
+            return {t for t in parse_out(out4 or "", k[:-len(" with -j 4")]) if all_small(t)}
+        if k.endswith("!raw"):
+            return parse_out(out, k[:-4], raw=True)
+        return {t for t in parse_out(out, k) if all_small(t)}
+    real = {k: got(k) for k in exp}
     note = "real (small range): %s\nexpected: %s\n" % ({k: sorted(v) for k, v in real.items()}, {k: sorted(v) for k, v in exp.items()})
     return (real != exp), note
 
